@@ -9,6 +9,18 @@ structure D where
   reg : List TxRec := []
   sink : Bool := false
   replica : Bool := false
+  avail : Bool := false        -- EnableTxsAvailable was called
+  notified : Bool := false     -- notifiedTxsAvailable
+  rmfuture : Bool := false     -- config.RemoveFutureTx
+  acctq : Nat := 1000          -- config.AccountQueue
+  lifeTiny : Bool := false     -- config.Lifetime of a few ns: the eviction tick removes every queue
+  dropAll : Bool := false      -- GoodTxDropTime = 0
+  p2ptx : Bool := true         -- config.ReceiveP2pTx
+  spec : List E := []          -- specGoodTxs
+  mSpec : Nat := 0             -- speculative nonce of the multi-sign address
+  mComm : Nat := 0             -- its committed nonce
+  specSize : Nat := 100        -- config.SpecSize
+  vals : Nat := 0              -- validators (power 1 each) whose signatures make a multi-sign tx
 deriving Inhabited
 
 def argI (toks : List String) (k : String) (d : Int) : Int := (argInt? toks k).getD d
@@ -48,7 +60,7 @@ def dump (p : Pool) : String :=
 /-- account transactions are signed deterministically: equal content = equal hash = the same transaction -/
 def sameAcct (a b : TxRec) : Bool :=
   (a.kind == .xfer || a.kind == .xfertok) && a.kind == b.kind && a.from_ == b.from_ && a.to == b.to && a.amount == b.amount &&
-  a.nonce == b.nonce && a.gas == b.gas && a.broken == b.broken
+  a.nonce == b.nonce && a.gas == b.gas && a.broken == b.broken && a.spends == b.spends
 
 def register (reg : List TxRec) (t : TxRec) : List TxRec × Nat :=
   match reg.findIdx? (sameAcct t) with
@@ -62,13 +74,34 @@ def imgClass (reg : List TxRec) (t : TxRec) : Int :=
     | none => -1
   else -1
 
+/-- `AddTx` followed by the per-account cap that the promotion of the sender applies when the tx entered goodTxs -/
+def admit (d : D) (e : E) : Cls × Pool :=
+  let (cls, p') := addTx d.p e
+  let entered := (p'.good.any (·.id == e.id)) && !(d.p.good.any (·.id == e.id))
+  (cls, if d.rmfuture && entered then capAccount p' e.t.from_ d.acctq else p')
+
+/-- IllegalGasLimitOrGasPrice / IntrinsicGas for a plain transaction: recipient without code (or none): gas must equal the
+fee rule's gas and cover the intrinsic gas; recipient with code: gas covers the intrinsic gas and, for a value > 0, the
+contract fee rule's gas -/
+def calGasC (amountUnits : Int) : Int :=
+  let g := 25000 * ((amountUnits + 99999999) / 100000000)
+  if g < 500000 then 500000 else if g > 5000000000 then 5000000000 else g
+
+def gasLegal (amount gas nz z : Int) (tocode create : Bool) : Bool :=
+  let intr := (if create then 53000 else 21000) + 68 * nz + 4 * z
+  if gas < intr then false
+  else if tocode then (if amount > 0 then decide (calGasC amount ≤ gas) else true)
+  -- no recipient and a payload that is not a JSON object (`IsContract`): a contract creation, any gas that covers the fee rule
+  else if create && nz + z > 0 then (if amount > 0 then decide (calGas amount ≤ gas) else true)
+  else gas == calGas amount
+
 def submit (d : D) (toks : List String) (t : TxRec) : D × String :=
   let (reg, id) := register d.reg t
   let d := { d with reg := reg }
   let img := imgClass reg t
   if argI toks "sub" 1 == 0 then (d, s!"id={id} img={img} built")
   else
-    let (cls, p') := addTx d.p { id := id, t := (reg[id]?).getD t }
+    let (cls, p') := admit d { id := id, t := (reg[id]?).getD t }
     ({ d with p := p' }, s!"id={id} img={img} add={clsOf cls ((reg[id]?).getD t)} {dump p'}")
 
 def dedup (xs : List Nat) : List Nat := xs.foldl (fun acc x => if acc.contains x then acc else acc ++ [x]) []
@@ -82,15 +115,31 @@ def touched (before after : Pool) : List Nat :=
   let c := (after.fut.filter (fun e => e.t.nonce == getn after.acc.nonce e.t.from_)).map (·.t.from_)
   dedup (a ++ b ++ c)
 
-def commitWith (d : D) (es : List E) : D × String :=
+def msigFrom : Nat := 999999
+def isMsig (e : E) : Bool := e.t.from_ == msigFrom
+
+def commitWith (d0 : D) (all : List E) : D × String :=
+  let es := all.filter (fun e => !isMsig e)
+  let ms := all.filter isMsig
+  let d := if d0.dropAll then { d0 with p := dropTimedOut d0.p (all.map (·.id)),
+                                        spec := d0.spec.filter (fun e => (all.map (·.id)).contains e.id) } else d0
+  -- execution first (PreRunBlock), then the validator-side checks (proofs, multi-sign signatures)
+  match specRun d.mComm (ms.map (·.t)) with
+  | none => (d0, "propose=panic")
+  | some mComm' =>
+  if !execOk d.p.c es then (d0, "propose=panic") else
+  if ms.any (fun e => e.t.broken.isSome) then (d0, "validate=false") else
   match forceEntries d.p es with
-  | none =>
-    -- the proposer path does not verify proofs: a block that executes but holds a tampered confidential transaction is
-    -- built (PreRunBlock) and then refused by CheckBlock on every node
-    if execOk d.p.c es then (d, "validate=false") else (d, "propose=panic")
-  | some p' =>
-    if (touched d.p p').length ≥ 2 then ({ d with p := p', sink := true }, "nondet")
-    else ({ d with p := p' }, s!"h={p'.c.height} txs={showIds (es.map (·.id))} {committedLine p'} {dump p'}")
+  | none => (d0, "validate=false")
+  | some p1 =>
+    let p2 := if d.rmfuture then capAll p1 d.acctq p1.cfg.accts else p1
+    let rest := d.spec.filter (fun e => !(all.map (·.id)).contains e.id)
+    let (kept, mSpec') := specRecheck mComm' rest
+    let dropped := rest.filter (fun e => !(kept.map (·.id)).contains e.id)
+    let p' := { p2 with cache := dropIds p2.cache dropped }
+    if (touched d0.p p').length ≥ 2 then ({ d with p := p', sink := true }, "nondet")
+    else ({ d with p := p', spec := kept, mSpec := mSpec', mComm := mComm' },
+          s!"h={p'.c.height} txs={showIds (all.map (·.id))} {committedLine p'} {dump p'}")
 
 def step (s : Option D) (toks : List String) : Option D × String :=
   match toks with
@@ -100,7 +149,10 @@ def step (s : Option D) (toks : List String) : Option D × String :=
                        utxoSize := (argI toks "utxosize" 1000).toNat, maxReap := (argI toks "maxreap" 10000).toNat,
                        accts := (argI toks "accts" 3).toNat }
     let p := Model.Mempool.init cfg (argI toks "wallets" 2).toNat (argI toks "bal" 1000000000) (argI toks "tbal" 1000)
-    (some { p := p, replica := argI toks "replica" 0 == 1 }, "ok " ++ committedLine p)
+    (some { p := p, replica := argI toks "replica" 0 == 1, avail := argI toks "avail" 0 == 1, rmfuture := argI toks "rmfuture" 0 == 1,
+            acctq := (argI toks "acctq" 1000).toNat, lifeTiny := argI toks "lifens" 0 > 0, dropAll := argI toks "droptime" (-1) == 0,
+            p2ptx := argI toks "p2ptx" 1 == 1, specSize := (argI toks "specsize" 100).toNat, vals := (argI toks "vals" 0).toNat },
+     "ok " ++ committedLine p)
   | op :: _ =>
     match s with
     | none => (none, "nopool")
@@ -110,9 +162,18 @@ def step (s : Option D) (toks : List String) : Option D × String :=
       | "xfer" =>
         let amount := argI toks "amount" 1
         let pad := argI toks "pad" 0
-        let (d, a) := submit d toks { kind := .xfer, from_ := (argI toks "from" 0).toNat, to := (argI toks "to" 1).toNat, amount := amount,
-                                      nonce := (argI toks "nonce" 0).toNat, gas := calGas amount,
-                                      broken := if pad > 0 then some s!"pad{pad}" else none }
+        let nz := argI toks "nz" 0
+        let z := argI toks "z" 0
+        let tocode := argI toks "tocode" 0 == 1
+        let create := argI toks "create" 0 == 1
+        let gas := match argInt? toks "gas" with | some g => if g ≥ 0 then g else calGas amount | none => calGas amount
+        let broken := if pad > 0 then some s!"pad{pad}"
+          else if !gasLegal amount gas nz z tocode create then some "other:illegal_gasLimit_or_gasPrice" else none
+        -- data / recipient kind are part of the transaction's identity (spends is unused for account transfers)
+        let extra := (nz.toNat * 100000 + z.toNat) * 4 + (if tocode then 2 else 0) + (if create then 1 else 0)
+        let (d, a) := submit d toks { kind := .xfer, from_ := (argI toks "from" 0).toNat,
+                                      to := if tocode || create then 1000 else (argI toks "to" 1).toNat, amount := amount,
+                                      nonce := (argI toks "nonce" 0).toNat, gas := gas, spends := extra, broken := broken }
         (some d, a)
       | "xfertok" =>
         let (d, a) := submit d toks { kind := .xfertok, from_ := (argI toks "from" 0).toNat, to := (argI toks "to" 1).toNat,
@@ -154,20 +215,39 @@ def step (s : Option D) (toks : List String) : Option D × String :=
             else
               let (d, a) := submit d toks { kind := .uin, spends := o.id, outs := [], aout := some (to, amount), gas := calGas amount, broken := brokenOf toks }
               (some d, a)
+      | "msig" =>
+        let sigs := Nat.min (argI toks "sigs" d.vals).toNat d.vals
+        let nonce := (argI toks "nonce" 0).toNat
+        -- VerifySign: more than two thirds (integer division) of the total power 1·vals
+        let t : TxRec := { kind := .xfer, from_ := msigFrom, to := (argI toks "variant" 0).toNat, amount := 0, nonce := nonce, gas := 0,
+                           spends := sigs, broken := if sigs > d.vals * 2 / 3 then none else some "funds" }
+        let (reg, id) := register d.reg t
+        let d := { d with reg := reg }
+        if argI toks "sub" 1 == 0 then (some d, s!"id={id} img=-1 built") else
+        let e : E := { id := id, t := t }
+        if d.p.cache.contains id then (some d, s!"id={id} img=-1 add=dup {dump d.p}")
+        else if t.broken.isSome then (some d, s!"id={id} img=-1 add=funds {dump d.p}")
+        else if nonce < d.mSpec then (some d, s!"id={id} img=-1 add=nonce-low {dump d.p}")
+        else if nonce > d.mSpec then (some d, s!"id={id} img=-1 add=nonce-high {dump d.p}")
+        else if d.spec.length < d.specSize then
+          let p' := { d.p with cache := d.p.cache ++ [id] }
+          (some { d with p := p', spec := d.spec ++ [e], mSpec := d.mSpec + 1 }, s!"id={id} img=-1 add=ok {dump p'}")
+        else (some { d with mSpec := d.mSpec + 1 }, s!"id={id} img=-1 add=full {dump d.p}")   -- the state check already ran
       | "resub" =>
         let id := (argI toks "id" 0).toNat
         if argI toks "id" 0 < 0 then (some d, "notx") else
         match d.reg[id]? with
         | none => (some d, "notx")
         | some t =>
-          let (cls, p') := addTx d.p { id := id, t := t }
+          let (cls, p') := admit d { id := id, t := t }
           (some { d with p := p' }, s!"add={clsOf cls t} {dump p'}")
       | "reap" =>
-        let es := reap d.p (argI toks "max" 1000).toNat
-        let ex := match execBlock d.p.c [] (es.map (·.t)) with | some _ => "ok" | none => "panic"
+        let es := reapS d.p d.spec d.specSize (argI toks "max" 1000).toNat
+        let ex := match execBlock d.p.c [] ((es.filter (fun e => !isMsig e)).map (·.t)), specRun d.mComm ((es.filter isMsig).map (·.t)) with
+          | some _, some _ => "ok" | _, _ => "panic"
         (some d, s!"txs={showIds (es.map (·.id))} exec={ex} {committedLine d.p}")
       | "commit" =>
-        let (d, a) := commitWith d (reap d.p (argI toks "max" 1000).toNat)
+        let (d, a) := commitWith d (reapS d.p d.spec d.specSize (argI toks "max" 1000).toNat)
         (some d, a)
       | "force" =>
         let ids := ((arg? toks "ids").getD "").splitOn "," |>.filterMap String.toNat?
@@ -187,10 +267,47 @@ def step (s : Option D) (toks : List String) : Option D × String :=
           let during := if !ex then "propose-panic" else toString (verdict pc [e])
           let cold := if !ex || !d.replica then "-" else toString (verdictCold pc.p.c [e])
           let (cls, pc') := finishC pc e
-          (some { d with p := pc'.p }, s!"during={during} cold={cold} add={clsOf cls t} {dump pc'.p}")
+          let entered := (pc'.p.good.any (·.id == id)) && !(d.p.good.any (·.id == id))
+          let p' := if d.rmfuture && entered then capAccount pc'.p t.from_ d.acctq else pc'.p
+          (some { d with p := p' }, s!"during={during} cold={cold} add={clsOf cls t} {dump p'}")
+      | "evictwait" =>
+        let p' := if d.rmfuture && d.lifeTiny then evictAll d.p else d.p
+        (some { d with p := p' }, s!"evicted {dump p'}")
+      | "recv" =>
+        let id := (argI toks "id" 0).toNat
+        match arg? toks "kind" with
+        | some "garbage" | some "empty" => (some d, s!"queued=0 stopped=1 add=- {dump d.p}")
+        | some "notify" | some "request" =>
+          if id < d.reg.length then (some d, s!"queued=0 stopped=0 add=- {dump d.p}") else (some d, "notx")
+        | _ =>
+          match d.reg[id]? with
+          | none => (some d, "notx")
+          | some t =>
+            if !d.p2ptx then (some d, s!"queued=0 stopped=0 add=- {dump d.p}") else
+            let (cls, p') := admit d { id := id, t := t }
+            (some { d with p := p' }, s!"queued=1 stopped=0 add={clsOf cls t} {dump p'}")
       | _ => (some d, "bad-op")
   | [] => (s, "bad-op")
 
-def machine : Machine := { σ := Option D, init := none, step := step }
+/-- key-image index and TxsAvailable notification: appended to every answer that carries a pool dump.  The index of the
+model IS the image list of utxoTxs (Props.C15 `Inv.imgs`), so `ki=ok`.  The notification fires at the first addition to a
+lane after a commit (or the start), and at the end of an Update that leaves the pool non-empty. -/
+def hasDump (ans : String) : Bool := (ans.splitOn " g=").length > 1
+
+def stepW (s : Option D) (toks : List String) : Option D × String :=
+  let (s', ans) := step s toks
+  match s, s' with
+  | some d, some d' =>
+    if !hasDump ans then (s', ans) else
+    let pend := fun (x : D) => (x.p.good ++ x.p.utxo ++ x.spec).map (·.id)
+    let added := (pend d').any (fun i => !(pend d).contains i)
+    let committed := ans.startsWith "h="
+    let av := d'.avail && (if committed then !(pend d').isEmpty else (!d.notified && added))
+    let notified := if committed then av else d.notified || av
+    (some { d' with notified := notified },
+     ans ++ s!" s={showIds (d'.spec.map (·.id))} mn={d'.mSpec},{d'.mComm} ki=ok av={if av then 1 else 0}")
+  | _, _ => (s', ans)
+
+def machine : Machine := { σ := Option D, init := none, step := stepW }
 
 end Driver.C15
